@@ -188,9 +188,14 @@ def replay(ctx, proof, path):
     wb = None if rp["wordbreaks"] == "default" else rp["wordbreaks"]
     res = complete.run_both(pg, out, tree, [(wb, rp["words"], rp["prefix"])], os.path.join(ctx.workdir, "bash"))
     (_, (brc, reply, log), spec) = res[0]
-    if complete.bash_answer(brc, reply) != spec["strict"]:
+    got = complete.bash_answer(brc, reply)
+    norm = lambda x: None if x == "N" else x
+    known = (spec["ambiguous"] or spec["lenient_ambiguous"] or
+             (spec["lenient_word"] is not None and got == norm(spec["lenient_word"])) or
+             (spec["lenient_last"] is not None and got == norm(spec["lenient_last"])))
+    if got != spec["strict"] and not known:
         print(f"VIOLATION property={ctx.prop} replay={path}")
         print("bash:", brc, reply, "spec:", spec["strict"])
         return 1
-    print("replay: property holds on this case now")
+    print("replay: property holds on this case now" + (" (out of class or a recorded finding)" if got != spec["strict"] else ""))
     return 0
